@@ -89,6 +89,71 @@ func TestC15Amd64Installed(t *testing.T) {
 			rep.Violate("C15/installed-sequence", fmt.Sprintf("victim(5) = %d after the last removal", got), nil)
 		}
 	}
+	// one guard applied, removed and applied again; two guards prepared for the same function and applied in turn: after
+	// every Apply the entry holds that guard's sequence, after every removal the function's own bytes
+	{
+		orig := append([]byte{}, vmon.ReadMem(entry, 16)...)
+		check := func(what string, fn func(int) int, want int) {
+			rep.Eval(1)
+			c := map[string]interface{}{"history": what}
+			if fn == nil {
+				if got := vmon.ReadMem(entry, 16); string(got) != string(orig) {
+					rep.Violate("C15/installed-sequence", fmt.Sprintf("%s: the entry holds % x, the function's own bytes are % x", what, got, orig), c)
+				} else if got := c15Victim(5); got != 35 {
+					rep.Violate("C15/installed-sequence", fmt.Sprintf("%s: victim(5) = %d", what, got), c)
+				}
+				return
+			}
+			j := vmon.DecodeJumpAt(entry)
+			if j.Kind != vmon.JumpEntry {
+				rep.Violate("C15/installed-sequence", fmt.Sprintf("%s: the entry holds % x, not an entry jump", what, vmon.ReadMem(entry, 13)), c)
+			} else if j.Ctx != vmon.FuncValuePtr(fn) {
+				rep.Violate("C15/installed-sequence-context", fmt.Sprintf("%s: the installed sequence loads %#x into the context register, the guard's function value is at %#x", what, j.Ctx, vmon.FuncValuePtr(fn)), c)
+			} else if got := c15Victim(5); got != want {
+				rep.Violate("C15/installed-sequence-context", fmt.Sprintf("%s: victim(5) = %d, the guard's replacement returns %d", what, got, want), c)
+			}
+		}
+		fA, fB := c15Factory(4000), c15Factory(5000)
+		rep.Journal(map[string]interface{}{"part": "installed", "step": "guard reuse"})
+		if g, err := Ptr(entry, fA); err != nil {
+			rep.Violate("C15/installed-sequence", fmt.Sprintf("guard reuse: %v", err), nil)
+		} else {
+			hist := "Apply"
+			g.Apply()
+			check(hist, fA, 4005)
+			for k := 0; k < 3; k++ {
+				g.UnpatchWithLock()
+				hist += ", Unpatch"
+				check(hist, nil, 0)
+				g.Apply()
+				hist += ", Apply"
+				check(hist, fA, 4005)
+			}
+			g.Apply()
+			check(hist+", Apply (again while installed)", fA, 4005)
+			g.UnpatchWithLock()
+			check(hist+", Unpatch", nil, 0)
+			rep.Class("installed/guard-reuse")
+		}
+		rep.Journal(map[string]interface{}{"part": "installed", "step": "two guards"})
+		ga, errA := Ptr(entry, fA)
+		gb, errB := Ptr(entry, fB)
+		if errA != nil || errB != nil {
+			rep.Violate("C15/installed-sequence", fmt.Sprintf("two guards: %v %v", errA, errB), nil)
+		} else {
+			ga.Apply()
+			check("two guards: a.Apply", fA, 4005)
+			gb.Apply()
+			check("two guards: a.Apply, b.Apply", fB, 5005)
+			ga.Apply()
+			check("two guards: a.Apply, b.Apply, a.Apply", fA, 4005)
+			gb.Apply()
+			check("two guards: a.Apply, b.Apply, a.Apply, b.Apply", fB, 5005)
+			gb.UnpatchWithLock()
+			check("two guards: ..., b.Unpatch", nil, 0)
+			rep.Class("installed/two-guards")
+		}
+	}
 	rep.Sample(map[string]interface{}{"part": "installed sequences", "steps": len(steps) * 2})
 }
 
